@@ -404,7 +404,7 @@ Proof. vm_compute. split; reflexivity. Qed.
    one-line functions delegates to breaks this theorem ---- *)
 From Bnum.Model Require Import Digit Core Shift AddSub Mul Div Bits Pow.
 From Bnum.Generated Require Import Glue.
-From Bnum.Proofs Require Import GlueTie.
+From Bnum.Proofs Require Import GlueTieCommon GlueTieC05.
 Theorem C05_glue_rs_matches_model :
   (forall w a r, Glue.U_checked_shl w a r = U_checked_shl w a r) /\
   (forall w a r, Glue.U_checked_shr w a r = U_checked_shr w a r) /\
